@@ -146,10 +146,11 @@ Qed.
 (* ------------------------------------------------------------------ normalize_phase1 = limiter, then decide *)
 Section WithRegex.
   Variable re : string -> string -> bool.
+  Variable st : json -> string.
 
   Lemma run_stream_decide c fs jm : forall es cnt,
-    run_stream re c fs jm cnt es
-    = map (fun p => decide re fs jm (snd p) (fst p)) (combine es (lim_stream c cnt es)).
+    run_stream re st c fs jm cnt es
+    = map (fun p => decide re st fs jm (snd p) (fst p)) (combine es (lim_stream c cnt es)).
   Proof.
     induction es as [|a es IH]; intros cnt; [reflexivity|].
     cbn [run_stream lim_stream]. unfold phase1. destruct (limiter c cnt a) as [cnt' v].
@@ -165,8 +166,8 @@ Section WithRegex.
   Qed.
 
   Lemma run_stream_nth c fs jm es i e : nth_error es i = Some e ->
-    nth_error (run_stream re c fs jm 0 es) i
-    = Some (decide re fs jm (snd (limiter c (cntd c (firstn i es)) e)) e).
+    nth_error (run_stream re st c fs jm 0 es) i
+    = Some (decide re st fs jm (snd (limiter c (cntd c (firstn i es)) e)) e).
   Proof.
     intros H. rewrite run_stream_decide.
     rewrite (nth_error_map_combine _ es (lim_stream c 0 es) i e _ H (counter_invariant c es i e H)).
@@ -181,70 +182,51 @@ Section WithRegex.
 
   (* an ignored event that is not a slice is handed on untouched, whatever the limits and filters *)
   Lemma ignored_kept c fs jm es i e : nth_error es i = Some e -> ignored c e = true -> is_X e = false ->
-    nth_error (run_stream re c fs jm 0 es) i = Some (Ok [e]).
+    nth_error (run_stream re st c fs jm 0 es) i = Some (Ok [e]).
   Proof.
     intros H Hi Hx. rewrite (run_stream_nth c fs jm es i e H), (limiter_ignored c _ e Hi).
     cbn [snd decide]. now rewrite Hx.
   Qed.
 
   (* ---------------------------------------------------------------- filter *)
-  Lemma resolves_walk e path leaf : resolves e path leaf -> walk e path = Ok leaf.
+  Lemma resolves_walk e path leaf : resolves e path leaf -> walk e path = Some leaf.
   Proof.
     induction 1; cbn [walk].
     - reflexivity.
     - now rewrite H.
-    - now rewrite H.
   Qed.
 
-  Lemma walk_resolves : forall path e leaf, through_dicts e path = true -> walk e path = Ok leaf ->
-    resolves e path leaf.
+  Lemma walk_resolves : forall path e leaf, walk e path = Some leaf -> resolves e path leaf.
   Proof.
-    induction path as [|a rest IH]; intros e leaf T W; cbn in *.
+    induction path as [|a rest IH]; intros e leaf W; cbn [walk] in W.
     - inversion W; constructor.
     - destruct e as [s|z|q|b| |l|kv]; try discriminate.
-      destruct (dget a kv) as [v|] eqn:E.
-      + eapply rs_step; [exact E|]. now apply IH.
-      + inversion W; subst. now apply rs_miss.
+      destruct (dget a kv) as [v|] eqn:E; [|discriminate].
+      eapply rs_step; [exact E|]. now apply IH.
   Qed.
 
+  (* the entry attr:regex matches the event: the event has the named attribute (every component of the dotted path is
+     a key of the dict reached so far), its value is not a dict, and the regex finds a match in str(value) *)
   Definition pair_matches (e : event) (ar : string * string) : Prop :=
-    exists leaf s, resolves (JD e) (split_on "."%char (fst ar)) leaf /\ is_dict leaf = false /\
-                   pystr leaf = Some s /\ re (snd ar) s = true.
+    exists leaf, resolves (JD e) (split_on "."%char (fst ar)) leaf /\ is_dict leaf = false /\
+                 re (snd ar) (st leaf) = true.
 
-  (* the claimed domain of one filter entry on one event: the path stays inside dicts and the value
-     reached has a modelled str() *)
-  Definition filter_dom (e : event) (ar : string * string) : bool :=
-    through_dicts (JD e) (split_on "."%char (fst ar)) &&
-    match walk (JD e) (split_on "."%char (fst ar)) with Ok leaf => leaf_ok leaf | Err _ => false end.
-
-  Lemma one_filter_spec e ar : filter_dom e ar = true ->
-    exists b, one_filter re e ar = Ok b /\ (b = true <-> pair_matches e ar).
+  Lemma one_filter_spec e ar : one_filter re st e ar = true <-> pair_matches e ar.
   Proof.
-    unfold filter_dom, one_filter. intros H. apply andb_prop in H. destruct H as [T L].
-    destruct (walk (JD e) (split_on "."%char (fst ar))) as [leaf|t] eqn:W; [|discriminate].
-    pose proof (walk_resolves _ _ _ T W) as R.
-    destruct (is_dict leaf) eqn:D.
-    - exists false. split; [reflexivity|]. split; [discriminate|].
-      intros (leaf' & s & R' & D' & _). apply resolves_walk in R'. rewrite W in R'. inversion R'; subst. congruence.
-    - unfold leaf_ok in L. rewrite D in L. cbn in L. destruct (pystr leaf) as [s|] eqn:P; [|discriminate].
-      exists (re (snd ar) s). split; [reflexivity|]. split.
-      + intros Hb. exists leaf, s. repeat split; assumption.
-      + intros (leaf' & s' & R' & _ & P' & M). apply resolves_walk in R'. rewrite W in R'. inversion R'; subst.
-        rewrite P in P'. inversion P'; subst. exact M.
+    unfold one_filter, pair_matches. split.
+    - destruct (walk (JD e) (split_on "."%char (fst ar))) as [leaf|] eqn:W; [|discriminate].
+      destruct (is_dict leaf) eqn:D; [discriminate|].
+      intros M. exists leaf. repeat split; try assumption. now apply walk_resolves.
+    - intros (leaf & R & D & M). rewrite (resolves_walk _ _ _ R), D. exact M.
   Qed.
 
-  Lemma filter_spec fs e : forallb (filter_dom e) fs = true ->
-    exists b, event_filtered re fs e = Ok b /\ (b = true <-> exists ar, In ar fs /\ pair_matches e ar).
+  (* no domain hypothesis: [event_filtered] is a total boolean function of any event and any filter list *)
+  Lemma filter_spec fs e :
+    event_filtered re st fs e = true <-> exists ar, In ar fs /\ pair_matches e ar.
   Proof.
-    induction fs as [|ar fs IH]; intros H.
-    - exists false. split; [reflexivity|]. split; [discriminate|]. intros (ar & [] & _).
-    - cbn [forallb] in H. apply andb_prop in H. destruct H as [H1 H2].
-      destruct (one_filter_spec e ar H1) as (b1 & E1 & S1). destruct (IH H2) as (b2 & E2 & S2).
-      cbn [event_filtered]. rewrite E1. destruct b1.
-      + exists true. split; [reflexivity|]. split; [|reflexivity]. intros _. exists ar. split; [now left|]. now apply S1.
-      + exists b2. split; [exact E2|]. rewrite S2. split.
-        * intros (ar' & I & M). exists ar'. split; [now right|exact M].
-        * intros (ar' & [I|I] & M); [subst; apply S1 in M; discriminate|]. exists ar'. now split.
+    unfold event_filtered. rewrite existsb_exists. split.
+    - intros (ar & I & M). exists ar. split; [exact I|]. now apply one_filter_spec.
+    - intros (ar & I & M). exists ar. split; [exact I|]. now apply one_filter_spec.
   Qed.
 
   Lemma finish_not_nil jm e : finish jm e <> Ok [].
@@ -256,11 +238,12 @@ Section WithRegex.
 
   (* an X event the limiter lets through is dropped iff a filter entry matches its normalised form;
      otherwise it is exported (with its jobname) *)
-  Lemma filter_keeps_others fs jm e e1 : xform e = Ok e1 -> forallb (filter_dom e1) fs = true ->
-    (post re fs jm e = Ok [] <-> exists ar, In ar fs /\ pair_matches e1 ar) /\
-    ((~ exists ar, In ar fs /\ pair_matches e1 ar) -> post re fs jm e = finish jm e1).
+  Lemma filter_keeps_others fs jm e e1 : xform e = Ok e1 ->
+    (post re st fs jm e = Ok [] <-> exists ar, In ar fs /\ pair_matches e1 ar) /\
+    ((~ exists ar, In ar fs /\ pair_matches e1 ar) -> post re st fs jm e = finish jm e1).
   Proof.
-    intros X D. destruct (filter_spec fs e1 D) as (b & E & S). unfold post. rewrite X, E. destruct b.
+    intros X. pose proof (filter_spec fs e1) as S. unfold post. rewrite X.
+    destruct (event_filtered re st fs e1).
     - split; [split; [intros _; now apply S|reflexivity]|]. intros N. exfalso. apply N. now apply S.
     - split; [|reflexivity]. split.
       + intros F. exfalso. exact (finish_not_nil jm e1 F).
@@ -311,27 +294,27 @@ Proof.
   now apply (limiter_count_mono c c2 _ e H Hc).
 Qed.
 
-Lemma decide_singleton re fs jm v e x : decide re fs jm v e = Ok [x] -> v = Ok true.
+Lemma decide_singleton re st fs jm v e x : decide re st fs jm v e = Ok [x] -> v = Ok true.
 Proof. destruct v as [[|]|t]; cbn; try discriminate; reflexivity. Qed.
 
-Lemma run_stream_nth_inv re c fs jm es i o : nth_error (run_stream re c fs jm 0 es) i = Some o ->
+Lemma run_stream_nth_inv re st c fs jm es i o : nth_error (run_stream re st c fs jm 0 es) i = Some o ->
   exists e, nth_error es i = Some e.
 Proof.
   intros H. destruct (nth_error es i) as [e|] eqn:E; [now exists e|].
   apply nth_error_None in E. rewrite run_stream_decide in H.
-  assert (L : (List.length (map (fun p => decide re fs jm (snd p) (fst p)) (combine es (lim_stream c 0 es))) <= i)%nat).
+  assert (L : (List.length (map (fun p => decide re st fs jm (snd p) (fst p)) (combine es (lim_stream c 0 es))) <= i)%nat).
   { rewrite map_length, combine_length, lim_stream_length. lia. }
   apply nth_error_None in L. congruence.
 Qed.
 
-Lemma monotone_count re c c2 fs jm es i x : same_but_count c c2 -> count_of c <= count_of c2 ->
-  nth_error (run_stream re c fs jm 0 es) i = Some (Ok [x]) ->
-  nth_error (run_stream re c2 fs jm 0 es) i = Some (Ok [x]).
+Lemma monotone_count re st c c2 fs jm es i x : same_but_count c c2 -> count_of c <= count_of c2 ->
+  nth_error (run_stream re st c fs jm 0 es) i = Some (Ok [x]) ->
+  nth_error (run_stream re st c2 fs jm 0 es) i = Some (Ok [x]).
 Proof.
-  intros H Hc Hn. destruct (run_stream_nth_inv re c fs jm es i _ Hn) as (e & He).
-  rewrite (run_stream_nth re c fs jm es i e He) in Hn. rewrite (run_stream_nth re c2 fs jm es i e He).
+  intros H Hc Hn. destruct (run_stream_nth_inv re st c fs jm es i _ Hn) as (e & He).
+  rewrite (run_stream_nth re st c fs jm es i e He) in Hn. rewrite (run_stream_nth re st c2 fs jm es i e He).
   inversion Hn as [Hd]. rewrite Hd. f_equal.
-  pose proof (decide_singleton re fs jm _ e x Hd) as Hv.
+  pose proof (decide_singleton re st fs jm _ e x Hd) as Hv.
   rewrite <- (cntd_ext c c2 _ (fun y => counted_sbc c c2 y H)).
   rewrite (limiter_count_mono c c2 _ e H Hc Hv). rewrite Hv in Hd. exact Hd.
 Qed.
@@ -397,44 +380,80 @@ Proof.
   apply andb_true_iff. split; lia.
 Qed.
 
-Lemma monotone_window re c c2 fs jm es i x : wider c c2 -> cntd c2 es <= limit_of c ->
-  nth_error (run_stream re c fs jm 0 es) i = Some (Ok [x]) ->
-  nth_error (run_stream re c2 fs jm 0 es) i = Some (Ok [x]).
+Lemma monotone_window re st c c2 fs jm es i x : wider c c2 -> cntd c2 es <= limit_of c ->
+  nth_error (run_stream re st c fs jm 0 es) i = Some (Ok [x]) ->
+  nth_error (run_stream re st c2 fs jm 0 es) i = Some (Ok [x]).
 Proof.
-  intros W Hb Hn. destruct (run_stream_nth_inv re c fs jm es i _ Hn) as (e & He).
-  rewrite (run_stream_nth re c fs jm es i e He) in Hn.
-  assert (Hd : decide re fs jm (snd (limiter c (cntd c (firstn i es)) e)) e = Ok [x]) by congruence.
-  clear Hn. pose proof (decide_singleton re fs jm _ e x Hd) as Hv.
+  intros W Hb Hn. destruct (run_stream_nth_inv re st c fs jm es i _ Hn) as (e & He).
+  rewrite (run_stream_nth re st c fs jm es i e He) in Hn.
+  assert (Hd : decide re st fs jm (snd (limiter c (cntd c (firstn i es)) e)) e = Ok [x]) by congruence.
+  clear Hn. pose proof (decide_singleton re st fs jm _ e x Hd) as Hv.
   assert (L1 : nth_error (lim_stream c 0 es) i = Some (Ok true)).
   { rewrite (counter_invariant c es i e He). now rewrite Hv. }
   pose proof (monotone_window_lim c c2 es i W Hb L1) as L2.
   rewrite (counter_invariant c2 es i e He) in L2.
   assert (Hv2 : snd (limiter c2 (cntd c2 (firstn i es)) e) = Ok true) by congruence.
-  rewrite (run_stream_nth re c2 fs jm es i e He), Hv2. rewrite Hv in Hd. now rewrite Hd.
+  rewrite (run_stream_nth re st c2 fs jm es i e He), Hv2. rewrite Hv in Hd. now rewrite Hd.
 Qed.
 
 (* ---------------------------------------------------------------- every entry of --event_filter counts *)
+Lemma split_first_app c : forall k r, has_char c k = false -> split_first c (k ++ String c r) = Some (k, r).
+Proof.
+  induction k as [|ch k IH]; intros r H; cbn [append split_first].
+  - now rewrite Ascii.eqb_refl.
+  - cbn [has_char] in H. apply orb_false_iff in H. destruct H as [H1 H2]. rewrite H1, (IH r H2). reflexivity.
+Qed.
+
+Lemma split_first_some c : forall s k r, split_first c s = Some (k, r) -> s = k ++ String c r /\ has_char c k = false.
+Proof.
+  induction s as [|ch s IH]; intros k r H; cbn [split_first] in H; [discriminate|].
+  destruct (Ascii.eqb ch c) eqn:E.
+  - apply Ascii.eqb_eq in E. inversion H; subst. split; reflexivity.
+  - destruct (split_first c s) as [[k' r']|] eqn:F; [|discriminate]. inversion H; subst.
+    destruct (IH k' r eq_refl) as [-> N]. split; [reflexivity|]. cbn [has_char]. now rewrite E, N.
+Qed.
+
 Lemma fold_add_filter_acc : forall fl acc x, In x acc -> In x (fold_left add_filter fl acc).
 Proof.
   induction fl as [|f fl IH]; intros acc x Hx; cbn [fold_left]; [exact Hx|].
-  apply IH. unfold add_filter. destruct (split_on ":"%char f) as [|k [|r [|? ?]]]; try exact Hx.
+  apply IH. unfold add_filter. destruct (split_first ":"%char f) as [kr|]; [|exact Hx].
   apply in_or_app; left; exact Hx.
 Qed.
 
-Lemma fold_add_filter_in : forall fl acc f k r,
-  In f fl -> split_on ":"%char f = [k; r] -> In (k, r) (fold_left add_filter fl acc).
+Lemma fold_add_filter_in : forall fl acc f kr,
+  In f fl -> split_first ":"%char f = Some kr -> In kr (fold_left add_filter fl acc).
 Proof.
-  induction fl as [|g fl IH]; intros acc f k r Hin Hs; [destruct Hin|].
+  induction fl as [|g fl IH]; intros acc f kr Hin Hs; [destruct Hin|].
   cbn [fold_left]. destruct Hin as [->|Hin].
   - apply fold_add_filter_acc. unfold add_filter. rewrite Hs. apply in_or_app; right; left; reflexivity.
   - eapply IH; eauto.
 Qed.
 
-(* a comma separated entry of the form attribute:regex is one of the filters in force - whether or not another entry
-   names the same attribute *)
+Lemma fold_add_filter_inv : forall fl acc kr, In kr (fold_left add_filter fl acc) ->
+  In kr acc \/ exists f, In f fl /\ split_first ":"%char f = Some kr.
+Proof.
+  induction fl as [|g fl IH]; intros acc kr H; cbn [fold_left] in H; [now left|].
+  destruct (IH _ _ H) as [Ha|(f & I & S)].
+  - unfold add_filter in Ha. destruct (split_first ":"%char g) as [kr'|] eqn:E; [|now left].
+    apply in_app_or in Ha. destruct Ha as [Ha|[<-|[]]]; [now left|]. right. exists g. split; [now left|exact E].
+  - right. exists f. split; [now right|exact S].
+Qed.
+
+(* a comma separated entry that contains a colon is one of the filters in force, with attribute = the text before its
+   FIRST colon and regex = everything after it (colons included) - whether or not another entry names the same attribute *)
 Lemma extract_every_entry : forall s f k r,
-  all_space s = false -> In f (split_on ","%char s) -> split_on ":"%char f = [k; r] ->
+  all_space s = false -> In f (split_on ","%char s) -> has_char ":"%char k = false -> f = k ++ String ":"%char r ->
   In (k, r) (extract_filters s).
 Proof.
-  intros s f k r Hs Hin Hf. unfold extract_filters. rewrite Hs. eapply fold_add_filter_in; eauto.
+  intros s f k r Hs Hin Hk ->. unfold extract_filters. rewrite Hs.
+  eapply fold_add_filter_in; [exact Hin|]. now apply split_first_app.
+Qed.
+
+(* ... and nothing else is: every filter in force is such an entry of the string *)
+Lemma extract_only_entries : forall s k r, In (k, r) (extract_filters s) ->
+  all_space s = false /\ has_char ":"%char k = false /\ In (k ++ String ":"%char r) (split_on ","%char s).
+Proof.
+  intros s k r H. unfold extract_filters in H. destruct (all_space s); [destruct H|].
+  split; [reflexivity|]. destruct (fold_add_filter_inv _ _ _ H) as [[]|(f & I & S)].
+  destruct (split_first_some _ _ _ _ S) as [-> N]. split; assumption.
 Qed.
